@@ -528,7 +528,7 @@ pub fn run(args: &Args, report: &mut Report) {
             let (name, text) = match rng.below(8) {
                 0 => ("missing.json".to_string(), String::new()),
                 1 => (format!("f{k}.json"), (*rng.pick(&["{", "", "[1,", "{\"a\":}", "nul", "\u{feff}{}", "{\"a\":1}}"])).to_string()),
-                2 => (format!("f{k}.lua"), (*rng.pick(&["return {a = 1, [\"b.c\"] = {1,2}}", "return 1", "error('x')", "return {", "while true do end", "return {diagnostics = {enable = false}}", "local t = {} t.t = t return t"])).to_string()),
+                2 => (format!("f{k}.lua"), (*rng.pick(&["return {a = 1, [\"b.c\"] = {1,2}}", "return 1", "error('x')", "return {", "return {diagnostics = {enable = false}}", "local t = {} t.t = t return t", "return {a=0/0, b=1/0, c=function() end, [1]=1, [2.5]=2, [{}]=3}"])).to_string()),
                 _ => (format!("f{k}.json"), serde_json::to_string(&gen_file(&mut rng)).unwrap()),
             };
             if name.ends_with(".json") && name != "missing.json" {
@@ -543,7 +543,7 @@ pub fn run(args: &Args, report: &mut Report) {
         report.evaluations += 1;
         report.count(if has_lua { "disk_with_lua(search-only)" } else { "disk_json" });
         let p2 = paths.clone();
-        let raw = vh_common::catch(move || canon(&load_configs_raw(p2, None)));
+        let raw = if has_lua { Ok(String::new()) } else { vh_common::catch(move || canon(&load_configs_raw(p2, None))) };
         match (raw.as_ref().map_err(|e| e.clone()), impl_full(paths.clone(), None, WS)) {
             (Err(m), _) | (_, Err(m)) => {
                 if !c32 {
@@ -560,6 +560,18 @@ pub fn run(args: &Args, report: &mut Report) {
                 } else {
                     report.traces_validated += 1;
                 }
+            }
+        }
+    }
+    if !c32 {
+        for (i, text) in ["while true do end", "local function f() return f() end return f()", "local t={} for i=1,1e9 do t[i]=i end return t"].iter().enumerate() {
+            let paths = write_files(&dir.join(format!("loop{i}")), &[("c.lua".to_string(), text.to_string())]);
+            report.evaluations += 1;
+            report.count("disk_lua_nonterminating(search-only)");
+            let t0 = std::time::Instant::now();
+            let r = impl_full(paths, None, WS);
+            if r.is_err() || t0.elapsed().as_secs() > 20 {
+                report.oracle_failure(json!({"input": {"disk_files": [["c.lua", text]]}, "what": format!("non-terminating Lua config: {:?} after {:?}", r.err(), t0.elapsed()), "class": Value::Null}));
             }
         }
     }
